@@ -14,6 +14,9 @@ THEOREMS = [_T + n for n in (
     # clause "stored value = incoming value clamped to the declared range"
     "limit_clamps", "stored_is_clamped_int", "stored_is_clamped_float", "stored_is_clamped_option",
     "stored_toggle",
+    # the repaired rLIMIT of the integer kinds: mathematical clamp whenever the declared range meets the type of
+    # the callback's variable; the result always is a value of that type
+    "limitInt_eq_limit", "limitInt_inRange", "stored_int_in_var_type",
     # clause "a message without arguments replies the stored value at the full address and changes nothing"
     "query_replies_and_preserves_int", "query_replies_and_preserves_float", "query_replies_and_preserves_option",
     "query_replies_and_preserves_toggle", "query_replies_and_preserves_string", "query_replies_and_preserves_array",
@@ -28,43 +31,76 @@ THEOREMS = [_T + n for n in (
     "string_truncated",
     # clause "option symbols translated to their index"
     "option_symbol_translated",
+    # clause "at the port's full address", scalar ports (partial: restricted matcher, no array ports, no rRecur walk)
+    "dispatch_scalar_at_address", "macro_specs_accept", "portMatches_scalar",
     # the float order the clamping theorems assume is the one of the bit-pattern model
     "fltOps_ordered", "intOps_ordered",
+    # a non-NaN float is reported with its own bit pattern (float -> double -> float of the variadic call)
+    "fArg_of_not_nan",
     # finding C14-K1: the bound an integer port uses vs. the declared literal
     "declared_int_bound_respected_counterexample", "declared_int_bound_respected_partial",
 )]
 HARNESS = {"src": ["param.cpp"], "deps": ["common.h"]}
-RULE = ("one op line = one port of the fixed table in harness/param.cpp (42 ports: every macro kind x several declared "
-        "ranges: negative, fractional, one-sided, absent; storage char/unsigned char/short/int/enum/float/bool/char[]; "
-        "arrays of length 1..16 incl. names containing digits), dispatched below `/` or `/sub/`, with a history of "
-        "1..8 set/query messages; values: each bound and its neighbours, storage extremes, in-range, far outside, "
-        "float bit patterns incl. +-0, subnormals, infinities, non-integral; option symbols of the port; strings of "
-        "length 0..2*capacity; a small stream of wrong-typed arguments, unknown symbols, NaNs, out-of-range indices and "
-        "values outside the storage type (correspondence only, the oracle does not judge them). "
+RULE = ("one op line = one port of the fixed table in harness/param.cpp (89 ports: every port macro x several declared "
+        "ranges: negative, fractional, one-sided, absent, outside the type of the callback's variable; storage "
+        "char/unsigned char/short/int/enum/float/bool/char[]/struct member; arrays of length 1..300 incl. names "
+        "containing digits; rOptions() of every arity 1..24 judged by the position of the symbol; rCOptionCb and "
+        "rArrayTCbMember instantiated by hand; metadata with rSpecial/rShort/rDefault/rCentered/rNoDefaults entries in "
+        "front of the range; string capacity 1..600), dispatched directly (`/`), through rRecur below `/sub/` and below a "
+        "200-letter address, and - six ports of a second table without array ports - through the hashed branch of "
+        "Ports::dispatch (`/flat/`), with a history of 1..8 set/query messages; values: each bound and its neighbours, "
+        "storage extremes, in-range, far outside, float bit patterns incl. +-0, subnormals, infinities, non-integral; "
+        "option symbols of the port; strings of length 0..2*capacity; array indices incl. >= 256, leading zeros; a small "
+        "stream of wrong-typed arguments, further arguments behind the first one, unknown symbols, quiet and signalling "
+        "NaNs, out-of-range indices, non-numeric text behind the name (`:`, `x`, `#`, `-1`) and values outside the "
+        "storage type (correspondence only, the oracle does not judge them apart from crashes). Compared per message: "
+        "delivered or not, the multiset of messages handed to reply/broadcast (address, types with c = i, values; "
+        "broadcasts of an unchanged value left out), the port's field (strings up to their terminator), and that no "
+        "other byte of the object tree changed. "
         "Non-trivial = the history contains at least one set message; distinct = distinct op line")
 ASSUMPTIONS = [
-    "incoming values are representable in the parameter's storage type (char-backed rParam/rArrayI: -128..127, "
+    "incoming values are representable in the type of the callback's variable (char-backed rParam/rArrayI: -128..127, "
     "unsigned char: 0..255, short: -32768..32767); stored values are in that range too",
-    "declared minimum <= declared maximum when both are present; metadata bounds are decimal literals",
+    "declared minimum <= declared maximum when both are present; metadata bounds are decimal literals; the declared "
+    "range meets the type of the callback's variable (minimum <= the type's largest value, maximum >= its smallest) - "
+    "a bound beyond the type on the far side (rArrayI with maximum 200) is covered and clamps nothing",
     "float clauses: incoming value, stored value and bounds are not NaN; 'changed' is IEEE inequality (+0 = -0)",
     "option symbols are among the port's `map N` entries",
     "array addresses are <name><decimal index> with index < declared length; port names contain no NUL, '#', ':'",
-    "messages carry at most one argument of a type the port's pattern accepts",
+    "the callbacks read the first argument only; the theorems hold for any further arguments (the type pattern's last "
+    "alternative accepts them)",
     "integer ports: the clamping theorems are about the bound the callback uses, atoi(metadata literal); that this "
     "bound lies inside the declared literal range holds outside the trigger boundTruncatedOutward (finding C14-K1)",
+    "field types of the integer kinds: char, unsigned char, short, int and int-based enums (IntTy); unsigned, long and "
+    "64-bit fields are not modelled",
+    "delivery (`at the port's full address`) is a theorem only for scalar macro ports over the restricted matcher of "
+    "Param/Port.lean (dispatch_scalar_at_address: the callback runs exactly when the path below the object is the port's "
+    "name, with loc = object address ++ name); array ports and the rRecur walk that builds the object's address are "
+    "compared with the implementation on every generated message only; C04/C05 own that claim",
 ]
 TRUSTED = [
     "hand-written model RtoscModel/Param/{Num,Sugar,Port}.lean of rLIMIT, rCAPPLY/rAPPLY, rParamCb, rParamFCb, rParamICb, "
-    "rCOptionCb_, rToggleCb, rStringCb, rBOILS_BEGIN, rArray*Cb (port-sugar.h) and enum_key (ports.cpp)",
+    "rCOptionCb_, rToggleCb, rStringCb, rBOILS_BEGIN, rArray*Cb incl. rArrayTCbMember (port-sugar.h) and enum_key (ports.cpp)",
     "modelled, not verified: atoi, (float)atof for decimal literals (Param/Num.lean), rtosc_vmessage/rtosc_argument "
-    "transporting int32/float/string values unchanged, the restricted rtosc_match used to decide whether the callback runs",
+    "transporting int32/string values unchanged and floats through double (signalling NaN quieted), the restricted "
+    "rtosc_match used to decide whether the callback runs",
     "RtoscModel/Meta.lean (C17) for prop[\"min\"], prop[\"max\"] and the iteration in enum_key",
+    "the expansion tables of the metadata macros (OPTIONS_IMPn, rOptionsBound, DOC_IMPn) are not modelled: the model reads "
+    "the metadata block they generate; only the oracle's positional symbol map (rOptions arity 1..24) checks them",
 ]
-LEVEL_TEXT = ("Lean theorems for every callback macro (all values, all declared ranges, arrays of every length): stored value "
-              "is the clamped incoming value, queries reply and preserve, changes are broadcast, exactly one /undo_change with "
-              "the true old and new value iff changed, arrays touch only the addressed element, strings truncated, symbols "
-              "translated; the model is compared with the compiled macros on tens of thousands of generated histories per run "
+LEVEL_TEXT = ("Lean theorems for the callback macros rParamCb, rParamICb, rParamFCb, rCOptionCb_/rOptionCb, rToggleCb, rStringCb "
+              "and the array forms rArrayFCb, rArrayICb, rArrayTCb, rArrayTCbMember, rArrayOptionCb (all values, all declared "
+              "ranges that meet the variable's type, arrays of every length; not rParamsCb, which only replies a blob): "
+              "stored value is the clamped incoming value, queries reply and preserve, changes are broadcast, exactly one "
+              "/undo_change with the true old and new value iff changed, arrays touch only the addressed element, strings "
+              "truncated, symbols translated; the callback theorems take the location as a free variable, delivery at the "
+              "port's address is proved for scalar ports only (restricted matcher); the model is compared with the compiled macros on tens of thousands of generated histories per run "
               "and the property is evaluated by an independent Python reference on the implementation's own output")
+LEVEL_NOTE = ("Not covered by a theorem: delivery to array ports and the address built by rRecur, the "
+              "metadata expansion macros (OPTIONS_IMPn etc., checked by the positional oracle only), field types other than "
+              "char/unsigned char/short/int. rOptionsBound(a,b,c) declares max = 3 (the number of symbols, one more than "
+              "the largest index): the check follows the declared metadata. Indices whose digits overflow `int` and float "
+              "bounds given as hex/inf/nan literals are outside the model (explicit `unsup`), and outside the generator.")
 
 INT_RANGE = {"i8": (-128, 127), "u8": (0, 255), "i16": (-32768, 32767), "i32": (-2 ** 31, 2 ** 31 - 1)}
 
@@ -343,7 +379,7 @@ def gen_line(rng, pid, stats):
     for _ in range(nm):
         idx = gen_index(rng, P, stats) if "n" in P else ""
         r = rng.random()
-        if r > 0.985:       # something that is not an index behind the name: no port matches
+        if r > 0.985 and not (P.get("set_first") and not msgs):       # not an index behind the name: no port matches
             idx = rng.choice(ODD_INDEX) + "@"
             stats["odd_path"] = stats.get("odd_path", 0) + 1
         if P.get("set_first") and not msgs:
@@ -404,6 +440,7 @@ def generate(rng, tier, stats):
     # port gets a fixed small share.  The ports with several hundred elements / bytes print long
     # states: a fixed share as well.
     big = [i for i in ids if PORTS[i].get("big")]
+    flat = [i for i in ids if PORTS[i].get("flat")]
     rest = [i for i in ids if i != "v9" and i not in big]
     every = max(1, n // 100)
     for j in range(n):
@@ -411,6 +448,8 @@ def generate(rng, tier, stats):
             pid = "v9"
         elif j % 25 == 1:
             pid = big[(j // 25) % len(big)]
+        elif j % 25 in (2, 3):
+            pid = rng.choice(flat)
         else:
             pid = rng.choice(rest)
         yield gen_line(rng, pid, stats)
@@ -522,6 +561,8 @@ def check_msg(P, loc, before, seg, tok, trunc=False):
     if arg == "q":
         if k == "str" and old is None:
             return None, after          # unterminated field: outside the property
+        if k == "flt" and math.isnan(bits2f(old)):
+            return None, after          # a NaN is stored: outside the float clauses
         if not matched:
             return "query not delivered", after
         if after != before:
